@@ -105,7 +105,18 @@ def havoc(st, env, old):
         env.vars.pop(nm, None)
 
 
-LOOPS = {(FN, 1): LoopSpec(inv, havoc, name="merge-loop")}
+def variant(st, env):
+    """termination: the length of the work list. Every iteration removes the head; a merge removes one more element and appends one.
+    CARD is uninterpreted: the facts about finite sets that the argument needs (card(S - x), card(S + x)) are instantiated along the
+    chain of updates of this iteration (lemma L-CARD; the list holds distinct objects, see WFbag)."""
+    from engine.heap import CARD, card_store_facts
+    cl = ObjBag.ids_of(env.lookup("clusters"))
+    card_store_facts(st, cl)
+    st.assume(CARD(cl) >= 0)
+    return CARD(cl)
+
+
+LOOPS = {(FN, 1): LoopSpec(inv, havoc, variant=variant, name="merge-loop")}
 CONTRACTS = {"matid/clustering/sbc.py:SBC._merge_clusters.merge": merge_contract}
 
 
